@@ -50,6 +50,8 @@ func cmdHarness(args []string) {
 	solver := fs.String("solver", "", "main solver (z3, z3-new)")
 	var params multiFlag
 	fs.Var(&params, "p", "param name=value")
+	var fb multiFlag
+	fs.Var(&fb, "stubfb", "function replaced by first-byte hash abstraction")
 	var stubs multiFlag
 	fs.Var(&stubs, "stub", "function=constant")
 	fs.Parse(args)
@@ -63,6 +65,7 @@ func cmdHarness(args []string) {
 		v, _ := strconv.Atoi(kv[1])
 		spec.Params[kv[0]] = v
 	}
+	spec.StubFirstByte = fb
 	for _, p := range stubs {
 		kv := strings.SplitN(p, "=", 2)
 		v, _ := strconv.ParseUint(kv[1], 0, 64)
